@@ -254,9 +254,16 @@ func c14Data() []c14Binding {
 	ext := []ref.Value{ref.Int(math.MaxInt64), ref.Int(math.MinInt64 + 1), ref.Int(-1), ref.Int(0), ref.Int(1), ref.Int(1 << 62), ref.Int(-(1 << 62))}
 	for rot := 0; rot < len(ext); rot++ {
 		m := ref.NewMap()
+		n++
+		def := fmt.Sprintf("d%d = {}", n)
 		for i := range ext {
-			m = ref.MapSet(m, ext[(i+rot)%len(ext)], ref.Int(int64(i)))
+			k := ext[(i+rot)%len(ext)]
+			m = ref.MapSet(m, k, ref.Int(int64(i)))
+			def += fmt.Sprintf("; d%d[%s] = %d", n, ref.Source(k), i)
 		}
+		mm := m
+		// built by index assignment in this order (the saved literal lists the keys in map order)
+		out = append(out, c14Binding{name: fmt.Sprintf("d%d", n), def: def, val: &mm})
 		add(m)
 	}
 	add(ref.Arr(ref.Float(1.0), ref.Float(2.5)))
